@@ -1181,3 +1181,32 @@ Proof.
   intros c p ku Hp Hku _ PW AQ. apply (reject_missing_password c p ku Hp Hku PW).
   unfold is_auth_query_configured in AQ. cbn [fill_pool p_auth_query p_auth_user p_auth_password] in AQ. exact AQ.
 Qed.
+
+(** * Defaults: the parsed value of an option is the file's, else the table's *)
+From PV Require Import Config.Defaults.
+
+Lemma key_eqb_refl : forall k, key_eqb k k = true.
+Proof. induction k as [|x k IH]; cbn [key_eqb]; [reflexivity|]. rewrite Z.eqb_refl, IH. reflexivity. Qed.
+
+Lemma key_eqb_eq : forall a b, key_eqb a b = true -> a = b.
+Proof.
+  induction a as [|x a IH]; destruct b as [|y b]; cbn [key_eqb]; intro H; try discriminate; [reflexivity|].
+  apply andb_true_iff in H. destruct H as [H1 H2]. apply Z.eqb_eq in H1. apply IH in H2. congruence.
+Qed.
+
+Lemma lookup_overlay : forall file defaults k d, lookup k defaults = Some d ->
+  lookup k (overlay file defaults) = Some (match lookup k file with Some v => v | None => d end).
+Proof.
+  intros file defaults k. induction defaults as [|[k' d'] r IH]; intros d H; cbn [lookup overlay map fst snd] in *; [discriminate|].
+  destruct (key_eqb k k') eqn:E.
+  - apply key_eqb_eq in E. subst k'. inversion H; subst. reflexivity.
+  - apply IH. exact H.
+Qed.
+
+Lemma overlay_set : forall file defaults k d v, lookup k defaults = Some d -> lookup k file = Some v ->
+  lookup k (overlay file defaults) = Some v.
+Proof. intros. rewrite (lookup_overlay _ _ _ _ H), H0. reflexivity. Qed.
+
+Lemma overlay_omitted : forall file defaults k d, lookup k defaults = Some d -> lookup k file = None ->
+  lookup k (overlay file defaults) = Some d.
+Proof. intros. rewrite (lookup_overlay _ _ _ _ H), H0. reflexivity. Qed.
